@@ -33,8 +33,11 @@ def kernel_family(rep, fb, tier, kre, fre, floors=None):
     if tier == "thorough" and sites_i:
         # re-run the call-site rules on every template instantiation (resolved callees, implicit conversions)
         for fn, nm in ((cs.rule_errflow, "sites"), (cs.rule_role, "role"), (cs.rule_fresh, "fresh")):
-            before = len(rep.rules)
-            fn(rep, fb, sites=sites_i, floor=1)
+            rep.no_floor_table = True
+            try:
+                fn(rep, fb, sites=sites_i, floor=1)
+            finally:
+                rep.no_floor_table = False
             rep.rules[-1].name += "@instantiations"
     rep.extra_cov.setdefault("kernels_without_definition", undefined)
     rep.extra_cov.setdefault("programs", programs)
